@@ -114,7 +114,8 @@ TSetPhase ==
   /\ e.op = "sp"
   /\ SetPhase(IF e.a >= 0 /\ e.a < M THEN e.a ELSE acc)
   /\ lastG' = <<FALSE, 0, 0, 0, 0>>
-  /\ lastNeg' = (IF e.neg THEN <<e.lo, e.a>> ELSE lastNeg)
+  \* (remembered only when the fractional part is exactly representable as a counter value: lo = hi)
+  /\ lastNeg' = (IF e.neg /\ e.lo = e.hi THEN <<e.lo, e.a>> ELSE lastNeg)
   /\ want' = want
   /\ Advance(   (IF e.a < 0 \/ e.a >= M THEN {<<"C11", "set-phase-range">>} ELSE {})
            \cup (IF ~e.neg /\ (e.a < e.lo - 4 \/ e.a > e.hi + 4) THEN {<<"C11", "set-phase">>} ELSE {})
